@@ -258,6 +258,7 @@ fn cmd_check(args: &[String]) -> i32 {
     let exe = std::env::current_exe().unwrap();
     let scratch = st::scratch_dir();
     let per = (total_runs + jobs - 1) / jobs;
+    let known = load_known();
     let mut agg_runs = 0u64;
     let mut agg_steps = 0u64;
     let mut agg_ops = 0u64;
@@ -326,8 +327,17 @@ fn cmd_check(args: &[String]) -> i32 {
     while !slots.is_empty() {
         // a violation of this property has been reported by a running worker: give the batch a short grace
         // period (other signatures), then stop it - on a broken tree workers tend to crash or hang repeatedly
-        if first_violation_at.is_none() && (!found.is_empty() || slots.iter().any(|s| s.lines.lock().unwrap().iter().any(|l| l.starts_with("V ")))) {
-            first_violation_at = Some(Instant::now());
+        if first_violation_at.is_none() {
+            let is_new = |sig: &str| known_match(&known, &prop, sig).is_none();
+            let in_found = found.keys().any(|k| is_new(k));
+            let in_lines = slots.iter().any(|s| {
+                s.lines.lock().unwrap().iter().any(|l| {
+                    l.strip_prefix("V ").and_then(|r| serde_json::from_str::<Value>(r).ok()).map(|v| is_new(v["signature"].as_str().unwrap_or(""))).unwrap_or(false)
+                })
+            });
+            if in_found || in_lines {
+                first_violation_at = Some(Instant::now());
+            }
         }
         if let Some(t) = first_violation_at {
             if t.elapsed().as_secs_f64() > 8.0 && !stopped_early {
@@ -482,7 +492,6 @@ fn cmd_check(args: &[String]) -> i32 {
         return 2;
     }
     // ---- triage: known findings vs new violations
-    let known = load_known();
     let mut exit = 0;
     let mut n_viol = 0i64;
     let mut known_hit: Vec<String> = Vec::new();
